@@ -24,9 +24,10 @@ theorem write_needs_kinds (prog : Arg) (toks : List Tok) (s : Nat)
 
 /-- **selection under the tagged option**: the tests selected from class `i` are exactly the visible
     test methods that carry the tag themselves or through their class -/
-theorem tagged_selects_exactly (cs : List TestClass) (hac : Acyclic cs) (i : Nat) (hi : i < cs.length)
+theorem tagged_selects_exactly (cs : List TestClass) (hac : Acyclic cs)
+    (hd : ∀ c ∈ cs, (c.own.map (·.1)).Nodup) (i : Nat) (hi : i < cs.length)
     (m : Arg) : m ∈ testNames cs i true ↔ CarriesTag cs i m :=
-  Lemmas.tagged_selects_exactly cs hac i hi m
+  Lemmas.tagged_selects_exactly cs hac hd i hi m
 
 /-- without the option every visible test is selected -/
 theorem untagged_selects_all (cs : List TestClass) (hac : Acyclic cs) (i : Nat) (hi : i < cs.length)
@@ -44,10 +45,11 @@ theorem selected_once (cs : List TestClass) (hac : Acyclic cs)
 theorem check_runs_none (cs : List TestClass) (tagged : Bool) : selectTests cs tagged true = [] := by
   simp [selectTests]
 
-theorem check_lists_exactly (cs : List TestClass) (hac : Acyclic cs) (n : Arg) :
+theorem check_lists_exactly (cs : List TestClass) (hac : Acyclic cs)
+    (hd : ∀ c ∈ cs, (c.own.map (·.1)).Nodup) (n : Arg) :
     n ∈ listedClasses cs true ↔
       ∃ i c, cs[i]? = some c ∧ c.name = n ∧ ∃ m, CarriesTag cs i m :=
-  Lemmas.check_lists_exactly cs hac n
+  Lemmas.check_lists_exactly cs hac hd n
 
 /-- the run list is the per-class selections, in class order -/
 theorem selectTests_mem (cs : List TestClass) (tagged : Bool) (n m : Arg) :
